@@ -38,6 +38,7 @@ def setup_scratch():
     if SCRATCH_ROOT and os.path.isdir(SCRATCH_ROOT) and SCRATCH_ROOT.endswith(str(os.getpid())):
         return SCRATCH_ROOT
     base = _pick_scratch_base()
+    _reap_stale(base)
     SCRATCH_ROOT = os.path.join(base, "awsim-%d" % os.getpid())
     shutil.rmtree(SCRATCH_ROOT, ignore_errors=True)
     os.makedirs(SCRATCH_ROOT)
@@ -46,6 +47,24 @@ def setup_scratch():
     set_home(home)
     atexit.register(_cleanup, SCRATCH_ROOT, os.getpid())
     return SCRATCH_ROOT
+
+
+def _reap_stale(base):
+    """Remove scratch roots left behind by killed runs (their owner pid is gone)."""
+    try:
+        names = os.listdir(base)
+    except OSError:
+        return
+    for n in names:
+        if not n.startswith("awsim-"):
+            continue
+        try:
+            pid = int(n.split("-", 1)[1])
+        except ValueError:
+            continue
+        if pid == os.getpid() or os.path.exists("/proc/%d" % pid):
+            continue
+        shutil.rmtree(os.path.join(base, n), ignore_errors=True)
 
 
 def _cleanup(path, pid):
@@ -78,11 +97,20 @@ class SimClock:
         self.real = False
         self.reads = 0
         self.us = 1_700_000_000_000_000
+        self.local_offset_us = 0  # the simulated host's UTC offset (naive now() is local time)
 
     def reset(self, us=1_700_000_000_000_000):
         self.us = us
         self.reads = 0
+        self.local_offset_us = 0
+        if self.real:
+            set_real_tz(0)
         self.real = False
+
+    def set_local_offset(self, off_min):
+        self.local_offset_us = off_min * 60_000_000
+        if self.real:
+            set_real_tz(off_min)
 
     def advance(self, us):
         if self.real:
@@ -108,13 +136,34 @@ CLOCK = SimClock()
 _EPOCH = _real_dt(1970, 1, 1, tzinfo=_dtmod.timezone.utc)
 
 
+def set_real_tz(off_min):
+    """Real-clock runs: give the process the same host time zone the simulated host had."""
+    if not off_min:
+        os.environ["TZ"] = "UTC"
+    else:
+        m = -off_min  # POSIX sign convention: XXX5 is UTC-5
+        os.environ["TZ"] = "XXX%s%d:%02d" % ("-" if m < 0 else "", abs(m) // 60, abs(m) % 60)
+    _timemod.tzset()
+
+
 def _sim_now(tz=None):
+    if CLOCK.real:
+        CLOCK.reads += 1
+        return _real_dt.now(tz)
     us = CLOCK.now_us()
     aware = _EPOCH + _dtmod.timedelta(microseconds=us)
     if tz is None:
-        # local time of the simulated host is UTC
-        return aware.replace(tzinfo=None)
+        # naive local time of the simulated host
+        return (aware + _dtmod.timedelta(microseconds=CLOCK.local_offset_us)).replace(tzinfo=None)
     return aware.astimezone(tz)
+
+
+def _sim_utcnow():
+    if CLOCK.real:
+        CLOCK.reads += 1
+        return _real_dt.now(_dtmod.timezone.utc).replace(tzinfo=None)
+    us = CLOCK.now_us()
+    return (_EPOCH + _dtmod.timedelta(microseconds=us)).replace(tzinfo=None)
 
 
 class _DTMeta(type):
@@ -140,7 +189,7 @@ class SimDatetime(metaclass=_DTMeta):
 
     @staticmethod
     def utcnow():
-        return _sim_now(None)
+        return _sim_utcnow()
 
     @staticmethod
     def today():
